@@ -201,7 +201,7 @@ inductive Decision where
   deriving DecidableEq, Repr
 
 /-- the first half of `Cache::offset`: decide between reuse and refresh.  The second half reads
-the offset out of `self.zone` of the returned cache (see `Cache.offset_with`). -/
+the offset out of `self.zone` of the returned cache (see `offset` below). -/
 def Cache.offset (W : World) (c : Cache) (now : Nat) (env : EnvVal) : Cache × Decision :=
   if within_window c.last_checked now then (c, .reused)
   else
@@ -218,12 +218,6 @@ def Cache.offset (W : World) (c : Cache) (now : Nat) (env : EnvVal) : Cache × D
 structure Lookups (β : Type) where
   utc : Zone → Int → β
   loc : Zone → Int → β
-
-/-- the whole of `Cache::offset(d, local)` -/
-def Cache.offset_with {β} (L : Lookups β) (W : World) (c : Cache) (now : Nat) (env : EnvVal)
-    (d : Int) (localDir : Bool) : Cache × β :=
-  let c' := (Cache.offset W c now env).1
-  (c', if localDir then L.loc c'.zone d else L.utc c'.zone d)
 
 /-! ### the process as a state machine -/
 
@@ -252,7 +246,8 @@ def inner_offset (W : World) (s : State) (t : Nat) : State × Zone × Decision :
     let r := Cache.offset W (Cache.default W s.clock s.env) s.clock s.env
     ({ s with caches := update s.caches t (some r.1) }, r.1.zone, .created)
 
-/-- `inner::offset_from_utc_datetime` / `inner::offset_from_local_datetime` with the lookup -/
+/-- `inner::offset_from_utc_datetime` / `inner::offset_from_local_datetime`: the cache lookup of
+`inner_offset`, then the second half of `Cache::offset`: read the answer out of that one zone -/
 def offset {β} (L : Lookups β) (W : World) (s : State) (t : Nat) (d : Int) (localDir : Bool) : State × β :=
   let r := inner_offset W s t
   (r.1, if localDir then L.loc r.2.1 d else L.utc r.2.1 d)
